@@ -632,6 +632,30 @@ fn native_spec() {
                 Err(e) => println!("SPEC-REPLAY MISMATCH target=positional_counter case={argv:?}: rejected as {:?}", e.kind()),
             }
         }
+        // ... and before any `--`: a terminated multi-value positional followed by another positional, with and
+        // without allow_missing_positional (the look-ahead applies only while the positional is not terminated)
+        for amp in [false, true] {
+            for (argv, want_cmd, want_dest, want_v) in [
+                (vec!["run", "echo", "hi", ";"], vec!["echo", "hi"], vec![], false),
+                (vec!["run", "echo", "hi", "-v"], vec!["echo", "hi"], vec![], true),
+                (vec!["run", "echo", "hi", "-v", ";", "out"], vec!["echo", "hi"], vec!["out"], true),
+                (vec!["run", "echo", ";", "out"], vec!["echo"], vec!["out"], false),
+            ] {
+                let cmd = Command::new("run")
+                    .allow_missing_positional(amp)
+                    .arg(Arg::new("cmdline").action(ArgAction::Set).num_args(1..).value_terminator(";"))
+                    .arg(Arg::new("dest"))
+                    .arg(Arg::new("verbose").short('v').action(ArgAction::SetTrue));
+                match cmd.try_get_matches_from(argv.clone()) {
+                    Ok(m) => {
+                        if raw(&m, "cmdline") != want_cmd || raw(&m, "dest") != want_dest || m.get_flag("verbose") != want_v {
+                            println!("SPEC-REPLAY MISMATCH target=positional_counter case=allow_missing_positional={amp} {argv:?}: cmdline={:?} dest={:?} verbose={}; expected cmdline={want_cmd:?} dest={want_dest:?} verbose={want_v}", raw(&m, "cmdline"), raw(&m, "dest"), m.get_flag("verbose"));
+                        }
+                    }
+                    Err(e) => println!("SPEC-REPLAY MISMATCH target=positional_counter case=allow_missing_positional={amp} {argv:?}: rejected as {:?}", e.kind()),
+                }
+            }
+        }
     } else if target == "push_arg_values" || target == "react_index" {
         // C02: one index per reported value, strictly increasing in argv order; raw values are the argv substrings
         let cmd = Command::new("p")
@@ -735,6 +759,151 @@ fn native_spec() {
                 }
             }
             Err(e) => println!("SPEC-REPLAY MISMATCH target=source_precedence case=Append rejected {:?}", e.kind()),
+        }
+    } else if target == "short_cluster_resume" {
+        // C01/C02: a short cluster that continues after a flag subcommand (`-SaQz`) is revisited from the right flag,
+        // whatever number of indices the flags before it took
+        let mk = |append: bool| {
+            Command::new("prog").subcommand(
+                Command::new("sync")
+                    .short_flag('S')
+                    .arg(Arg::new("a").short('a').action(if append { ArgAction::Append } else { ArgAction::Set }).require_equals(true).num_args(0..=1).default_missing_value("x"))
+                    .arg(Arg::new("b").short('b').action(ArgAction::SetTrue))
+                    .arg(Arg::new("c").short('c').action(ArgAction::Count))
+                    .subcommand(
+                        Command::new("query")
+                            .short_flag('Q')
+                            .arg(Arg::new("z").short('z').action(ArgAction::SetTrue))
+                            .arg(Arg::new("y").short('y').action(ArgAction::SetTrue)),
+                    ),
+            )
+        };
+        // (argv, append?, expected: number of a values, b, c, z, y)
+        let cases: Vec<(Vec<&str>, bool, usize, bool, u8, bool, bool)> = vec![
+            (vec!["prog", "-SbQz"], false, 0, true, 0, true, false),
+            (vec!["prog", "-SccQzy"], false, 0, false, 2, true, true),
+            (vec!["prog", "-SaQz"], false, 1, false, 0, true, false),
+            (vec!["prog", "-SaQzy"], false, 1, false, 0, true, true),
+            (vec!["prog", "-SabQy"], false, 1, true, 0, false, true),
+            (vec!["prog", "-SaaQz"], true, 2, false, 0, true, false),
+            (vec!["prog", "-SaaQzy"], true, 2, false, 0, true, true),
+            (vec!["prog", "-SaQ", "-z"], false, 1, false, 0, true, false),
+            (vec!["prog", "-Sa=v", "-Qz"], false, 1, false, 0, true, false),
+            (vec!["prog", "-Sb", "-c", "-Qz"], false, 0, true, 1, true, false),
+            (vec!["prog", "-SbQz", "-y"], false, 0, true, 0, true, true),
+            (vec!["prog", "-Sbc", "-cc", "-Qzy"], false, 0, true, 3, true, true),
+        ];
+        for (argv, append, na, b, c, z, y) in cases {
+            let a2 = argv.clone();
+            let r = std::panic::catch_unwind(move || mk(append).try_get_matches_from(a2));
+            match r {
+                Err(_) => println!("SPEC-REPLAY MISMATCH target=short_cluster_resume case={argv:?}: PANIC (tracking of flag_subcmd_skip)"),
+                Ok(Err(e)) => println!("SPEC-REPLAY MISMATCH target=short_cluster_resume case={argv:?}: valid line rejected as {:?}", e.kind()),
+                Ok(Ok(m)) => {
+                    let s = m.subcommand_matches("sync");
+                    let q = s.and_then(|s| s.subcommand_matches("query"));
+                    let got = s.map(|s| (s.get_many::<String>("a").map(|v| v.count()).unwrap_or(0), s.get_flag("b"), s.get_count("c")));
+                    let gq = q.map(|q| (q.get_flag("z"), q.get_flag("y")));
+                    if got != Some((na, b, c)) || gq != Some((z, y)) {
+                        println!("SPEC-REPLAY MISMATCH target=short_cluster_resume case={argv:?}: sync (a count, b, c) = {got:?}, query (z, y) = {gq:?}; expected {:?} and {:?}", (na, b, c), (z, y));
+                    }
+                }
+            }
+        }
+    } else if target == "check_explicit" {
+        // C03: a condition `other == value` holds iff ANY value of `other` matches (case-insensitively iff other.ignore_case)
+        for ic in [false, true] {
+            for (vals, any_json) in [(vec!["json"], true), (vec!["xml"], false), (vec!["json", "xml"], true), (vec!["xml", "json"], true), (vec!["xml", "yaml"], false), (vec!["JSON", "xml"], ic)] {
+                let cmd = Command::new("p")
+                    .arg(Arg::new("format").long("format").action(ArgAction::Append).ignore_case(ic))
+                    .arg(Arg::new("out").long("out").action(ArgAction::Set).required_if_eq("format", "json"))
+                    .arg(Arg::new("lvl").long("lvl").action(ArgAction::Set).default_value_if("format", "json", Some("deep")));
+                let mut argv = vec!["p".to_string()];
+                for v in &vals {
+                    argv.push("--format".into());
+                    argv.push(v.to_string());
+                }
+                let r = cmd.clone().try_get_matches_from(argv.clone());
+                let missing = matches!(&r, Err(e) if e.kind() == ErrorKind::MissingRequiredArgument);
+                if missing != any_json || (r.is_err() && !missing) {
+                    println!("SPEC-REPLAY MISMATCH target=check_explicit case=ignore_case={ic} {argv:?}: required_if_eq(format, json) fired={missing}, expected={any_json}");
+                }
+                argv.extend(["--out".to_string(), "o".to_string()]);
+                match cmd.try_get_matches_from(argv.clone()) {
+                    Ok(m) => {
+                        let lvl = m.get_one::<String>("lvl").cloned();
+                        // (default_value_if compares raw values exactly; only the required_if_eq family is documented to honour ignore_case)
+                        let exact = vals.iter().any(|v| *v == "json");
+                        if (lvl.as_deref() == Some("deep")) != exact {
+                            println!("SPEC-REPLAY MISMATCH target=check_explicit case=ignore_case={ic} {argv:?}: default_value_if(format, json) gave {lvl:?}, expected applied={exact}");
+                        }
+                    }
+                    Err(e) => println!("SPEC-REPLAY MISMATCH target=check_explicit case=ignore_case={ic} {argv:?}: rejected {:?}", e.kind()),
+                }
+            }
+        }
+    } else if target == "start_custom_arg" {
+        // C06/C07: a value from the environment or a default never displaces what was typed, even when the
+        // env/default-backed argument overrides the typed one (either declaration direction)
+        std::env::set_var("VERIF_SCA_ENV", "true");
+        for reverse in [false, true] {
+            for via in ["env", "default"] {
+                let mut color = Arg::new("color").long("color").action(ArgAction::Set);
+                let mut nc = Arg::new("no-color").long("no-color").action(ArgAction::Set);
+                nc = if via == "env" { nc.env("VERIF_SCA_ENV") } else { nc.default_value("true") };
+                if reverse {
+                    color = color.overrides_with("no-color");
+                } else {
+                    nc = nc.overrides_with("color");
+                }
+                let cmd = Command::new("p").arg(color).arg(nc);
+                match cmd.try_get_matches_from(["p", "--color", "always"]) {
+                    Ok(m) => {
+                        if m.value_source("color") != Some(crate::parser::ValueSource::CommandLine) || m.get_one::<String>("color").map(|s| s.as_str()) != Some("always") {
+                            println!("SPEC-REPLAY MISMATCH target=start_custom_arg case=no-color backed by {via}, overrides declared {}: `--color always` was typed but color is {:?} from {:?}",
+                                if reverse { "on color" } else { "on no-color" }, m.get_one::<String>("color"), m.value_source("color"));
+                        }
+                    }
+                    Err(e) if e.kind() == ErrorKind::ArgumentConflict => {}
+                    Err(e) => println!("SPEC-REPLAY MISMATCH target=start_custom_arg case=no-color backed by {via}: rejected {:?}", e.kind()),
+                }
+            }
+        }
+        // and a later command-line occurrence does remove the overridden one
+        let cmd = Command::new("p").arg(Arg::new("a").long("a").action(ArgAction::SetTrue).overrides_with("b")).arg(Arg::new("b").long("b").action(ArgAction::SetTrue));
+        match cmd.try_get_matches_from(["p", "--b", "--a"]) {
+            Ok(m) if m.get_flag("a") && !m.get_flag("b") => {}
+            other => println!("SPEC-REPLAY MISMATCH target=start_custom_arg case=p --b --a with a overriding b: {:?}", other.map(|m| (m.get_flag("a"), m.get_flag("b"))).map_err(|e| e.kind())),
+        }
+    } else if target == "bin_name_twins" {
+        // C11: a definition that was used for earlier parses renders the same help as a fresh one
+        let shapes: Vec<(&str, fn() -> Command)> = vec![
+            ("plain", || Command::new("ctl").flatten_help(true).arg(Arg::new("v").short('v').action(ArgAction::SetTrue))
+                .subcommand(Command::new("status").arg(Arg::new("all").long("all").action(ArgAction::SetTrue)).subcommand(Command::new("deep"))).subcommand(Command::new("reload"))),
+            ("subcommand_negates_reqs + required arg", || Command::new("ctl").flatten_help(true).subcommand_negates_reqs(true).arg(Arg::new("input").required(true))
+                .subcommand(Command::new("status").arg(Arg::new("all").long("all").action(ArgAction::SetTrue))).subcommand(Command::new("reload"))),
+            ("required arg", || Command::new("ctl").flatten_help(true).arg(Arg::new("input").required(true))
+                .subcommand(Command::new("status").arg(Arg::new("all").long("all").action(ArgAction::SetTrue))).subcommand(Command::new("reload"))),
+            ("args_conflicts_with_subcommands + required arg", || Command::new("ctl").flatten_help(true).args_conflicts_with_subcommands(true).arg(Arg::new("input").required(true))
+                .subcommand(Command::new("status").arg(Arg::new("all").long("all").action(ArgAction::SetTrue))).subcommand(Command::new("reload"))),
+            ("no_binary_name(true)", || Command::new("ctl").flatten_help(true).no_binary_name(true).arg(Arg::new("v").short('v').action(ArgAction::SetTrue))
+                .subcommand(Command::new("status").arg(Arg::new("all").long("all").action(ArgAction::SetTrue))).subcommand(Command::new("reload"))),
+        ];
+        for (what, mk) in shapes {
+            let nb = what.starts_with("no_binary_name");
+            let fresh = mk().render_help().to_string();
+            let fresh_long = mk().render_long_help().to_string();
+            let mut used = mk();
+            let h1: Vec<&str> = if nb { vec!["status", "--all"] } else { vec!["ctl", "x", "status", "--all"] };
+            let h2: Vec<&str> = if nb { vec!["reload", "extra"] } else { vec!["ctl", "reload", "extra"] };
+            let _ = used.try_get_matches_from_mut(h1);
+            let _ = used.try_get_matches_from_mut(h2);
+            let after = used.render_help().to_string();
+            let after_long = used.clone().render_long_help().to_string();
+            if fresh != after || fresh_long != after_long {
+                let diff = fresh.lines().zip(after.lines()).find(|(a, b)| a != b).map(|(a, b)| format!("{a:?} vs {b:?}")).unwrap_or_default();
+                println!("SPEC-REPLAY MISMATCH target=bin_name_twins case={what}: help rendered by a definition used for two earlier parses differs from a fresh one: {diff}");
+            }
         }
     } else if target == "match_arg_error" {
         // C10: the error kind names a rule the input really breaks
